@@ -355,7 +355,7 @@ fn edit_case<G: CurveTag>(bytes: &[u8], col: &mut Collector) -> Result<(), Failu
     let cut = bytes.len().min(32);
     let mut chi = Choices::new(&bytes[..cut]);
     let mut ch = Choices::new(&bytes[cut..]);
-    let cfg = GenCfg { max_ops1: 10, max_closures: 2, max_ops2: 6, max_commits: 3, big_gates: 16 , max_terms: 4, wide: false};
+    let cfg = GenCfg { max_ops1: 10, max_closures: 2, max_ops2: 6, max_commits: 3, big_gates: 16, max_terms: 4, wide: false };
     let mut prog = gen_program(&mut ch, G::CURVE, &cfg);
     prog.cap_v = Cap::Big;
     let p = run_prover::<G>(&prog, &ProveOpts::default());
